@@ -1,5 +1,6 @@
 """C07 - partial construction equals the full tessellation restricted to the mask."""
 import json
+import os
 
 import common as C
 import geo
@@ -51,6 +52,10 @@ def run(res, replay=None):
         if any(mask) and not all(mask):
             res.nontriv((k,))
         vp, vf = o["vor"], of["vor"]
+        if len(vp["cells"]) != n or len(vf["cells"]) != n:
+            res.violation("C07:cell-count", f"the partial tessellation reports {len(vp['cells'])} cells (full: {len(vf['cells'])}) for {n} generators (mask {mask}): "
+                          "every generator must have a cell, unselected ones with zero volume", ctx)
+            continue
         for i in range(n):
             cp, cfull = vp["cells"][i], vf["cells"][i]
             if mask[i]:
@@ -96,3 +101,54 @@ def run(res, replay=None):
                     res.violation("C07:mixed-face-missing", f"face between selected {sel} and unselected {uns} (area {C.b2f(f['area'])}) missing from the partial build", ctx)
         if len(res.samples) < 2:
             res.sample({"input": T.inp_json(case), "faces_partial": len(vp["faces"]), "faces_full": len(vf["faces"])})
+    # ---- independence of the call history: the same generator array is used for a (partial) construction, modified in place and used
+    # again; the second result must be bitwise what a fresh array with the current positions gives (no state kept between calls)
+    rp_seq = None
+    if replay:
+        rpj = json.load(open(replay))["replay"]
+        if "second_positions" in rpj:
+            rp_seq = (rpj["input"], rpj["second_positions"], rpj["input"].get("mask"))
+    if not replay or rp_seq:
+        rng = C.Rng(res.seed * 7151 + 3)
+        seqs = [rp_seq] if rp_seq else []
+        for j in range(0 if rp_seq else (8 if res.tier == "quick" else 80)):
+            inp = T.gen_input(rng, "uniform", (j % 3) + 1, j % 2 == 1, nmax=300 if j % 4 == 0 else 40)
+            n = len(inp["gens"])
+            if n < 3:
+                continue
+            a, w = inp["anchor"], inp["width"]
+            sel = rng.below(n)
+            gb = [list(g) for g in inp["gens"]]
+            # move the generator farthest from the selected one right next to it (and a random one somewhere else)
+            far = max(range(n), key=lambda i: sum((gb[i][t] - gb[sel][t]) ** 2 for t in range(inp["dim"])))
+            if far != sel:
+                gb[far] = [min(max(gb[sel][t] + 0.03 * w[t] * (rng.unit() - 0.5), a[t]), a[t] + w[t] * 0.999) for t in range(3)]
+            k2 = rng.below(n)
+            if k2 not in (sel, far):
+                gb[k2] = [a[t] + w[t] * rng.unit() * 0.999 for t in range(3)]
+            mask = [i == sel for i in range(n)] if j % 3 != 2 else ([rng.chance(0.5) for _ in range(n)] if j % 3 == 2 and j % 2 else None)
+            seqs.append((inp, gb, mask))
+        wd = os.path.join(C.CACHE, "run", "c07")
+        os.makedirs(wd, exist_ok=True)
+        cf = os.path.join(wd, "seq.cases")
+        with open(cf, "w") as f:
+            for inp, gb, mask in seqs:
+                toks = ["seq", str(inp["dim"]), "1" if inp["periodic"] else "0"] + [str(C.f2b(x)) for x in inp["anchor"]] + [str(C.f2b(x)) for x in inp["width"]]
+                toks += [str(len(gb)), "1" if mask is not None else "0"] + (["1" if m else "0" for m in mask] if mask is not None else [])
+                toks += [str(C.f2b(x)) for g in inp["gens"] for x in g] + [str(C.f2b(x)) for g in gb for x in g]
+                f.write(" ".join(toks) + "\n")
+        rc, so, _ = C.run_impl(C.build_harness("debug"), cf, os.path.join(wd, "seq.out"))
+        for k, (inp, gb, mask) in enumerate(seqs):
+            o = so.get(k)
+            res.count("sequence:" + ("masked" if mask is not None else "full"))
+            ctx = {"input": T.inp_json(dict(inp, mask=mask)), "second_positions": gb}
+            if o is None or "panic" in o:
+                cls = T.known_class(dict(inp, gens=gb))
+                res.violation("panic:" + geo.panic_signature(o, dict(inp, gens=gb)), f"sequence of two constructions on one array panicked: {(o or {}).get('panic')} {cls}", ctx)
+                continue
+            res.nontriv(("seq", k))
+            if not o["same"] or not o["same_integrator"] or not o["back_same"]:
+                which = "direct route" if not o["same"] else ("integrator route" if not o["same_integrator"] else "after moving the generators back")
+                res.violation("C07:history-dependent", f"a construction on an array that was used before and modified in place differs from the construction of the same "
+                              f"positions in a fresh array ({which}; n = {len(gb)}, dim {inp['dim']}, periodic {inp['periodic']}, mask {'yes' if mask is not None else 'no'})", ctx)
+
